@@ -231,6 +231,55 @@ def run_cfgs(c, cfgs, tmp, stream):
     return len(bad)
 
 
+def resow_stream(c, tmp, n):
+    """Sow, then sow a DIFFERENT sweep on the same crop without new batch arguments: the crop must either
+    refuse (its saved numbers do not fit) or end up with batches that satisfy the property for the new sweep."""
+    import xyzpy
+    from harness.impl import cropdriver as D
+    from harness.impl import runner as R
+    pairs, metas = [], []
+    for _ in range(n):
+        n1 = c.rng.randint(2, 12)
+        how = c.rng.choice(["bs", "nb"])
+        v = c.rng.randint(1, n1)
+        n2 = max(1, n1 + c.rng.choice([-3, -2, -1, -1, 0, 1, 2]))
+        sweeps = []
+        for nn in (n1, n2):
+            sw = R.Sweep(c.rng, with_cases=False, kind=0, allow_consts=False)
+            sw.case_args, sw.cases, sw.combo_args = [], [], ["a"]
+            sw.pools = {"a": list(range(nn))}
+            sw.types = {"a": "int"}
+            sw.combos = [("a", sw.pools["a"])]
+            sw.rank = {"a": {x: x for x in range(nn)}}
+            sweeps.append(D.SownSweep(sw, False, "combos"))
+        run = D.CropRun(tmp, 0, name="rs")
+        ops = [("sow", sweeps[0], v if how == "bs" else None, v if how == "nb" else None),
+               ("reload",) if c.rng.random() < 0.5 else ("query",), ("sow", sweeps[1], None, None)]
+        obs = [run.do(o) for o in ops]
+        rep = {"first": [n1, how, v], "second_n": n2, "reload": ops[1][0]}
+        c.case(("resow", n1, how, v, n2, ops[1][0]), nontrivial=True)
+        c.count("stream", "resow"); c.count("resow_outcome", "accepted" if obs[-1][0] == 0 else "refused")
+        if obs[-1][0] == 0:
+            # accepted: the property must hold for the new sweep
+            crop = run.crop
+            ids = C.batch_files(crop)
+            B = crop.num_batches
+            allkw = [C.freeze(kw) for i in ids for kw in C.read_pickle(
+                os.path.join(crop.location, "batches", f"xyz-batch-{i}.jbdmp"))]
+            want = sorted(C.freeze({"a": x}) for x in range(n2))
+            if ids != list(range(1, B + 1)):
+                c.violation("resow:ids-not-1..B", f"after an accepted re-sow the crop reports {B} batches but files {ids}", rep)
+            elif sorted(allkw) != want:
+                c.violation("resow:not-a-partition", "after an accepted re-sow the batch files do not hold exactly the new settings", rep)
+        pairs.append(("run_crop 0 [" + "; ".join(D.coq_op(o) for o in ops) + "]", obs))
+        metas.append(rep)
+    bad, _ = core.safe_run_cases(c, "Prelude Grid Perm Runner RunnerInst Batch Crop CropInst", pairs, chunk=100)
+    for i in bad:
+        c.obligation_broken("correspondence Model/Crop.v (re-sow) vs cropping.py",
+                            {"case": metas[i], "model_expr": pairs[i][0][:1500], "observed": pairs[i][1]})
+    return len(bad)
+
+
 def run(tier, seed):
     c = core.Check("C07", tier, seed)
     gen = core.regen()
@@ -250,6 +299,7 @@ def run(tier, seed):
         # when an obligation is broken, search the whole stated domain
         cfgs = gen_configs("thorough" if (c.broken or tier == "thorough") else "quick", c.rng)
         nbad = run_cfgs(c, cfgs, tmp, "main")
+        nbad += resow_stream(c, tmp, 150 if tier == "quick" and not c.broken else 1200)
         c.cov["disagreements_checked"] = nbad
         c.cov["exhaustive"] = bool(tier == "thorough" or c.broken)
     finally:
